@@ -165,7 +165,7 @@ class LangGen:
         base = val or ""
         if self.lid == 1301 and name in ("created", "si-expires") or self.lid == 1701 and name == "timestamp":
             return self.rng.choice(DATETIMES)
-        r = self.rng.below(7) if forced is None else forced
+        r = self.rng.below(9) if forced is None else forced
         if r == 0:
             return base if base else "v"
         if r == 1:
@@ -179,6 +179,10 @@ class LangGen:
             return base + self.rng.choice(shared)
         if r == 5:
             return base[:-1] + "~" if len(base) > 1 else base + "q"       # prefix broken: another row or literal
+        if r == 6 and self.vals:
+            return base + self.rng.choice(self.vals)[0] + "x"             # one octet after a value token
+        if r == 7 and self.vals:
+            return base + "x" + self.rng.choice(self.vals)[0] + self.rng.choice(self.vals)[0]
         return base + "tail%d" % self.rng.below(5)
 
     def attr_docs(self, per_doc, shared):
@@ -192,6 +196,8 @@ class LangGen:
             plan.append((row, 0))          # the exact pair of the row
             plan.append((row, 1))          # the row's value followed by a remainder
             plan.append((row, None))       # a random form
+            if self.vals:
+                plan.append((row, 6))
         for i, (row, forced) in enumerate(plan):
             if cur is None or row[0] in used or len(cur.attrs) >= 3:
                 if cur is not None:
@@ -228,7 +234,7 @@ class LangGen:
         rep1, rep2 = "hello_world_text", "other string here"
         kids = []
         texts = [rep1, rep2, rep1, "prefix " + rep1 + " suffix", rep2, "once only words", "words only twice", "ab", "abc", "abcd", "abcd",
-                 " unique padded %d " % self.rng.below(100), "\tunique tab padded\n", rep2 + rep1]
+                 " unique padded %d " % self.rng.below(100), "\tunique tab padded\n", rep2 + rep1, rep1 + "x", "y" + rep2, rep1 + "z" + rep1]
         if d7:
             texts += ["  " + rep1 + " ", "  " + rep1 + " ", " padded twice ", " padded twice ", "tail_string", "tail_string"]
         for k, tx in enumerate(texts):
